@@ -119,7 +119,7 @@ fn kv_route(silent: bool) -> SendTrackRoute {
 	SendTrackRoute { volume: Parameter::new(Value::Fixed(kv_gain(silent)), Decibels::IDENTITY), set_volume_command_reader: rd }
 }
 
-// @h prop=C02 tier=thorough kind=main timeout=1700
+// @h prop=C02 tier=quick kind=main timeout=400
 // @bounds Track with one probe sound and TWO send routes to two real SendTracks of which the FIRST may have been removed (symbolic); all gains 0 dB; one 1-frame chunk
 // @funcs Track::process (send loop), SendTrack::add_input, ResourceStorage::get_mut
 // @catches a removed send aborting the remaining routes (return instead of continue); a send fed twice
